@@ -211,6 +211,9 @@ func c30(c *an.Check) {
 	}
 	c.Require(okSid && n == 1, "WHO", "solicit linkState.sessionID is written once from ComputeSessionID", nil, "", n, "single store of ComputeSessionID(local, remote)", "the link's session id is not (only) the computed session id")
 	solicitLockset(c)
+	// the directive bus merges equivalent SolicitProtocol directives: one that differs in protocol id, context, peer or
+	// transport constraint must not be folded into another (EQUIV obligations of that directive, as in C37)
+	equivCheck(c, func(f *ssa.Function) bool { return strings.Contains(an.FuncName(f), "solicit.solicitProtocol") })
 }
 
 // paramFixedAtCallSites: every repository call site passes a value of statically fixed length for the parameter
@@ -327,6 +330,23 @@ func c31(c *an.Check) {
 				return false
 			}},
 		}})
+	// the stream is closed inside the critical section that saw "not accepted": an accept cannot slip in between
+	muF := fv(c, solPkg, "solicitMountedStream", "mu")
+	c.Gate(an.GateSpec{Rule: "LOCKSET", Construct: "solicit Close closes the underlying stream under the ownership mutex", Fn: cl,
+		Sink: func(s *an.State, ins ssa.Instruction) bool { return isInvokeOf(ins, "", "Close") },
+		Reqs: []an.Req{{Name: "mu held (locked, not unlocked since)", Holds: func(s *an.State, at ssa.Instruction) bool {
+			var lastLock ssa.Instruction
+			s.Executed(at, func(i ssa.Instruction) bool {
+				if isMtxCall(i, muF, "Lock") {
+					lastLock = i
+				}
+				return false
+			})
+			if lastLock == nil {
+				return false
+			}
+			return !s.ExecutedSince(at, lastLock, func(i ssa.Instruction) bool { return isMtxCall(i, muF, "Unlock") })
+		}}}})
 	c.Gate(an.GateSpec{Rule: "MUSTCALL", Construct: "solicit Close marks the value closed", Fn: cl,
 		Sink: func(s *an.State, ins ssa.Instruction) bool {
 			// whenever Close reports success, and also whenever it has closed the underlying stream (whatever that
